@@ -470,7 +470,8 @@ def validate_unit(native, unit_path, u, vec):
         return False, 'native check failed on validation vector: %s' % failed[:3]
     from . import irfront, irs
     mod = irfront.load_module(unit_path)
-    E = irs.Engine(mod, dict(fixed=dict(vec), concrete_defaults=True, query_timeout_ms=20000))
+    E = irs.Engine(mod, dict(fixed=dict(vec), concrete_defaults=True, query_timeout_ms=20000,
+                           max_loop=u.get('max_loop', 2000), max_steps=u.get('max_steps', 5_000_000)))
     res = E.run('h_main')
     if res.errors or res.violations or res.issues:
         return False, 'E2 concrete run: errors=%s violations=%s issues=%s' % (res.errors[:2], [v['label'] for v in res.violations[:2]], [i['msg'] for i in res.issues[:2]])
@@ -515,3 +516,22 @@ def write_evidence(prop_id, ev):
     os.makedirs(d, exist_ok=True)
     with open(os.path.join(d, prop_id + '.json'), 'w') as f:
         json.dump(ev, f, indent=1, default=str)
+
+
+def replay_file(prop_id, spec, path):
+    """./vcheck <id> --replay <file>: rebuild the harness natively against the current /repo and re-run the input"""
+    rec = json.load(open(path))
+    scratch = build.make_scratch(prop_id + '-replay')
+    try:
+        native = Native(scratch)
+        u = dict(harness=rec['harness'], defs=rec.get('defs', []))
+        kind = rec.get('kind')
+        rep = replay(native, u, rec.get('inputs') or {}, rec['label'] if kind == 'check' else None, None if kind == 'check' else kind)
+        if rep.get('reproduced'):
+            print('REPRODUCED %s' % rec['label'])
+            print(json.dumps(rep)[:1000])
+            return 1
+        print('NOT-REPRODUCED %s' % rep.get('why'))
+        return 0
+    finally:
+        shutil.rmtree(scratch, ignore_errors=True)
